@@ -22,7 +22,7 @@ CLAIMED = {
     ),
     "C03": dict(
         technique="runtime monitoring: differential execution of folded vs run-time evaluated renderings of the same expression on the reference machine, plus the harness interpreter as an independent evaluator",
-        text="Exploration with a completely enumerated operator x operand-class table (about 2000 rows) plus random trees; written values must agree across literal / stack-loaded / mixed / variable / function-argument renderings.",
+        text="Exploration with a completely enumerated operator x operand-class table (about 2000 rows) plus random trees (written values must agree across literal / stack-loaded / mixed / variable / function-argument renderings) and a statement-level flow stream: programs whose constants are literals in one rendering and stack loads in the other (constant tests of if / if not / while, parameters and locals assigned a constant, range bounds, globals) must produce the same effect trace.",
         note="Trusts vf/ic10_arith.py inside the trusted domain (positive modulus, non-negative ints < 2^31 for bit ops, no rounding ties).",
         ref="DESIGN.md 3 C03",
     ),
@@ -34,8 +34,8 @@ CLAIMED = {
     ),
     "C05": dict(
         technique="runtime monitoring: loader (labels defined exactly once, targets in range), harness-computed text relation between the two label modes, lock-step execution of both outputs with path comparison",
-        text="Exploration over generated programs whose function names come from hostile identifier pools (prefix chains, clashes, label look-alikes, operand look-alikes), strings containing label names, corpus.",
-        note="Trusts vf/tok.py and the reference machine for the lock-step part; comment options are off in the pairs.",
+        text="Exploration over generated programs whose function names come from hostile identifier pools (prefix chains, clashes, label look-alikes, operand look-alikes, regex look-alikes), look-alike pairs that are both emitted as subroutines, strings containing label names, long-line programs with the version tag and source comments on, multi-module programs with same-named main functions, corpus.",
+        note="Trusts vf/tok.py and the reference machine for the lock-step part; the relation is on tokenised instructions, so comment options may be on (a quarter of the pairs).",
         ref="DESIGN.md 3 C05",
     ),
     "C06": dict(
@@ -46,7 +46,7 @@ CLAIMED = {
     ),
     "C07": dict(
         technique="runtime monitoring: region / fall-through monitor and state-cycle (divergence) detector on the reference machine; 'main has ended' supplied by the reference interpreter",
-        text="Exploration: terminating and endless mains with 1-4 functions under the eight call-convention corners; function regions may only be entered by jal or a tail jump; after the source ends the chip must halt with the same effects.",
+        text="Exploration: terminating and endless mains with 1-4 functions under the eight call-convention corners; function regions may only be entered by jal or a tail jump, a plain jump may not leave its region, a return may not land on an entry; after the source ends the chip must halt with the same effects (also judged when another monitor fired first).",
         note="The pinned tree's fall-through into the first function is a recorded known finding (pinned by .ref files); every other entry path or post-end effect is a violation.",
         ref="DESIGN.md 3 C07",
     ),
@@ -64,13 +64,13 @@ CLAIMED = {
     ),
     "C10": dict(
         technique="runtime monitoring: wrapper monitors around the real compile_code (exception recorder, return-shape checker, child-process monitor via Popen wrapper and /proc, duration, watchdog with solo re-run)",
-        text="Exploration: ~5600 hostile texts per quick run (mutated programs, unsupported constructs, recursion, Lua-looking text, dunder pragmas, deep nesting, constexpr bodies that fail/print/exit/loop) x arbitrary option values.",
+        text="Exploration: ~5600 hostile texts per quick run (mutated programs, unsupported constructs, recursion, Lua-looking text, dunder pragmas, deep nesting, constexpr bodies that fail/print/exit/loop, the same failing constexpr compiled before inside a longer text) x arbitrary option values.",
         note="'Promptly' is decided logically (children bounded by the code's own 1 s timeout); a wall-clock stall must reproduce when the case runs alone.",
         ref="DESIGN.md 3 C10",
     ),
     "C11": dict(
         technique="runtime monitoring: offline history checker over recorded request/response histories of one long-lived process, references from fresh processes and pristine forked children under several PYTHONHASHSEED values, input-immutability snapshots",
-        text="Exploration: 8 (quick) / 400 (thorough) histories of 40-130 requests over pools chosen to touch every piece of process-wide state; each occurrence must equal the first occurrence and the fresh-process result.",
+        text="Exploration: 8 (quick) / 64 (thorough) histories of 40-130 requests over pools chosen to touch every piece of process-wide state; each occurrence must equal the first occurrence and the fresh-process result.",
         note="constexpr timeouts under load are inconclusive; fresh processes import the same working tree.",
         ref="DESIGN.md 3 C11",
     ),
@@ -112,7 +112,7 @@ CLAIMED = {
     ),
     "C18": dict(
         technique="runtime monitoring: round-trip + alphabet oracle on the real encode_data/decode_data under a generated workload, with a monitor that records which base64 residues/substitutions each case exercised",
-        text="Exploration: 2e5 (quick) / 3e6 (thorough) generated JSON-native dictionaries; the oracle is the identity itself; the monitor shows every padding length and both alphabet substitutions were exercised.",
+        text="Exploration: 2e5 (quick) / 3e6 (thorough) generated JSON-native dictionaries; the oracle is the identity itself; the monitor shows every padding length, both alphabet substitutions, every line-ending convention and JSON texts above 64 KiB and 1 MiB were exercised.",
         note="Trusts python's json/zlib/base64 only for classifying coverage; dictionaries are JSON-native.",
         ref="DESIGN.md 3 C18",
     ),
